@@ -108,7 +108,9 @@ def _stop(rng, max_iter):
 
 
 def _base(rng, solver):
-    return {"solver": solver, "minimize": rng.random() < 0.5, "seed": rng.randint(0, 10**6),
+    # seed 0 (falsy!) and other small seeds are fixed seeds like any other: a quarter of the cases use them
+    seed = rng.choice([0, 0, 1, 2, 7]) if rng.random() < 0.25 else rng.randint(0, 10**6)
+    return {"solver": solver, "minimize": rng.random() < 0.5, "seed": seed,
             "cbseed": rng.randint(0, 10**6)}
 
 
